@@ -15,7 +15,7 @@ mod private {
         fn weight(i: usize, n: usize) -> f64;
 
         fn estimate_unchecked<S: State>(spectrum: &Spectrum<S>) -> f64 {
-            let n = spectrum.elements() - 1;
+            let n = spectrum.elements().saturating_sub(1);
 
             spectrum
                 .array
